@@ -7,7 +7,13 @@
 * HISTORIES on one Parser object: ``build_layout_history`` / ``layout_histories`` (drawn) and ``history_table`` (deterministic):
   2-3 closures parsed one after the other by the same Parser instance, later ones re-using struct / message / alias names of
   earlier ones with other field lists (same size and another alignment, another size, other order, ...), ``parse_on`` and ``snapshot``
-  to drive and observe them.
+  to drive and observe them;
+* the generator class "user constants named like the core's limit constants": ``with_limit_constants`` (transformation of any layout
+  program compiled WITHOUT the core definitions), ``LIMIT_VARIANTS`` (deterministic value sets: larger, smaller, off by one, other
+  kinds of constant) and ``limit_const_programs`` (Hypothesis strategy, sizes next to 65535): the size limit of the statement is the
+  number 65535 whatever constants the compiled files declare;
+* ``one_short_programs``: deterministic closures for the gcc sample of the quick tier - structs / messages whose fields end exactly
+  1 (and 2..7) bytes short of their alignment, nested, as array elements, behind aliases.
 """
 from __future__ import annotations
 
@@ -43,7 +49,8 @@ def split_emitted(em: List[tuple], user: List[tuple]) -> Tuple[List[int], bool]:
 def expected_slots(p: G.Program, name: str, padded: bool = True) -> List[tuple]:
     """What a C header must declare for definition ``name``: ("user", field name, length) in the user's order and - with validation
     and automatic padding on - ("pad", bytes, declared length) exactly in the gaps of the natural layout (an interior gap of k bytes
-    as char[k], also for k == 1; a trailing gap of one byte as a scalar).  Padding NAMES are not part of the expectation."""
+    as char[k], also for k == 1; a trailing gap of one byte as a scalar - ``header_mismatch`` takes a scalar and [1] for one byte
+    alike, the declared bytes count).  Padding NAMES are not part of the expectation."""
     d = p.by_name(name)
     if d.reuse is not None:
         return expected_slots(p, d.reuse, padded)
@@ -69,7 +76,7 @@ def header_mismatch(got: Optional[List[Tuple[str, Optional[int]]]], slots: List[
     for k, ((n, ln), s) in enumerate(zip(got, slots)):
         if s[0] == "user" and (n, ln) != (s[1], s[2]):
             return f"member {k} is {n}{'' if ln is None else '[%d]' % ln}, the user's field there is {s[1]}{'' if s[2] is None else '[%d]' % s[2]}"
-        if s[0] == "pad" and ln != s[2]:
+        if s[0] == "pad" and (ln == 0 or (1 if ln is None else ln) != s[1]):
             return f"member {k} ({n}) should be {s[1]} padding byte(s), it is declared with length {ln}"
     names = [n for n, _ in got]
     dup = sorted({n for n in names if names.count(n) > 1})
@@ -177,6 +184,156 @@ def padname_table() -> List[G.Program]:
                               {"padding-name", "padding-name-table", "layout/" + lname})
                 p.classes.update(_gap_classes(p, "PN_REC"))
                 out.append(p)
+    return out
+
+
+# ----------------------------------------------------------------------------------------------
+# user constants named like the limit constants of the core definitions
+
+
+def core_limit_constants() -> Dict[str, int]:
+    """The integer constants core_defs.yaml publishes (MAX_MESSAGE_SIZE, MAX_CONTIGUOUS_MESSAGE_DATA, MAX_MESSAGE_TYPES, ...)."""
+    return {n: v for n, v in G.core_defs()["constants"].items() if isinstance(v, int) and not isinstance(v, bool)}
+
+
+SIZE_LIMIT_NAME = "MAX_MESSAGE_SIZE"
+# name -> what a closure compiled WITHOUT the core definitions declares: [(kind, name, value, text)], kind constant | string
+LIMIT_VARIANTS = {
+    "size-limit-larger": lambda: [("constant", SIZE_LIMIT_NAME, 1048576, "1048576")],
+    "size-limit-huge": lambda: [("constant", SIZE_LIMIT_NAME, 0x7FFFFFFF, "0x7FFFFFFF")],
+    "size-limit-plus-one": lambda: [("constant", SIZE_LIMIT_NAME, 65536, "65536")],
+    "size-limit-smaller": lambda: [("constant", SIZE_LIMIT_NAME, 1000, "1000")],
+    "size-limit-minus-one": lambda: [("constant", SIZE_LIMIT_NAME, 65534, "65534")],
+    "size-limit-zero": lambda: [("constant", SIZE_LIMIT_NAME, 0, "0")],
+    "size-limit-expression": lambda: [("constant", "HALF_OF_IT", 524288, "524288"), ("constant", SIZE_LIMIT_NAME, 1048576, "2 * HALF_OF_IT")],
+    "size-limit-float": lambda: [("constant", SIZE_LIMIT_NAME, 1048576.0, "1048576.0")],
+    "size-limit-string": lambda: [("string", SIZE_LIMIT_NAME, "1048576", None)],
+    "all-core-limits-larger": lambda: [("constant", n, v * 16, str(v * 16)) for n, v in core_limit_constants().items()],
+    "all-core-limits-smaller": lambda: [("constant", n, max(1, v // 16), str(max(1, v // 16))) for n, v in core_limit_constants().items()],
+    "all-core-limits-same": lambda: [("constant", n, v, str(v)) for n, v in core_limit_constants().items()],
+}
+LIMIT_PLACES = ("root", "imported")
+
+
+def add_limit_constants(p: G.Program, items: List[tuple], place: str = "root", tag: str = "drawn") -> Optional[G.Program]:
+    """Copy of the layout closure ``p`` (compiled without the core definitions) that also declares the given constants - in the root
+    file, or in a file of their own that the root imports FIRST (read before every definition).  Constants do not change a layout and
+    the statement's size limit is a number: the expectation (``expect``) is that of ``p``.  None when p imports the core definitions
+    (the names would be duplicates) or uses one of the names itself."""
+    if p.import_coredefs or any(p.has(n) for _k, n, _v, _t in items):
+        return None
+    q = p.clone()
+    q.fault = p.fault
+    if place == "imported":
+        path = "site_limits.yaml"
+        if any(sp.path == path for sp in q.specs):
+            return None
+        root = q.spec(q.root)
+        root.imports.insert(0, [path if "/" not in q.root else "/".join([".."] * q.root.count("/")) + "/" + path, path])
+        spec = G.FileSpec(path=path)
+        q.specs.append(spec)
+    else:
+        path = q.root
+        spec = q.spec(path)
+    for kind, name, value, text in items:
+        spec.defs.append(G.Def(kind, name, path, value=value, text=text, flags=["limit-constant"]))
+    q.classes |= {"limit-constants", "limit-constants/" + tag, "limit-constants/in-" + place + "-file"}
+    q.rerender()
+    probs = [x for x in q.problems() if x not in set(p.problems())]
+    if probs:
+        raise G.GeneratorBug("limit constants added problems of their own to a layout program: " + "; ".join(probs[:3]))
+    return q
+
+
+def with_limit_constants(p: G.Program, ch: G.Chooser) -> Optional[G.Program]:
+    """``add_limit_constants`` with a drawn declaration: one of the deterministic variants, or 1-4 of the core's constant names (mostly
+    MAX_MESSAGE_SIZE among them) with drawn values - far above, far below and right next to 65535 and to the core's own value."""
+    if ch.chance(0.5):
+        tag = ch.choice(sorted(LIMIT_VARIANTS))
+        items = LIMIT_VARIANTS[tag]()
+    else:
+        core = core_limit_constants()
+        names = [n for n in ch.shuffled(sorted(core))[: ch.integer(0, 3)] if n != SIZE_LIMIT_NAME]
+        if ch.chance(0.85) or not names:
+            names.insert(ch.integer(0, len(names)), SIZE_LIMIT_NAME)
+        items = []
+        for n in names:
+            v = ch.weighted([(core[n] * ch.choice([2, 16, 1000]), 3), (max(0, core[n] // ch.choice([2, 16, 1000])), 3), (core[n] + ch.choice([-1, 1]), 1),
+                             (ch.choice([65534, 65536, 65537, 70000, 131072, 1 << 20, 1 << 31, 1 << 40]), 3), (ch.integer(0, 200000), 2)])
+            items.append(("constant", n, v, str(v)))
+        tag = "drawn"
+    return add_limit_constants(p, items, ch.choice(LIMIT_PLACES), tag)
+
+
+def limit_const_programs(**kw):
+    from hypothesis import strategies as st
+
+    G.core_defs()
+
+    @st.composite
+    def _lp(draw):
+        ch = G.HypChooser(draw)
+        return with_limit_constants(G.build_layout_program(ch, boundary=ch.chance(0.8), **kw), ch)
+
+    return _lp()
+
+
+# ----------------------------------------------------------------------------------------------
+# deterministic gcc sample: definitions that end one byte (and 2..7 bytes) short of their alignment
+
+_ONE_SHORT = {
+    "TAG": ["int32", "char[3]"],                      # 7 of 8, alignment 4
+    "MARK": ["int16", "uint8"],                       # 3 of 4, alignment 2
+    "STAMP7": ["double", "char[7]"],                  # 15 of 16, alignment 8
+    "STAMP5": ["double", "int32", "int16", "uint8"],  # 15 of 16
+    "TRIPLE": ["int16[3]", "int8"],                   # 7 of 8, alignment 2
+    "LEAD1": ["uint8", "int16", "uint8"],             # interior 1 + trailing 1
+    "SAMPLE": ["double", "TAG", "MARK", "uint8[3]"],  # 23 of 24, nests padded structs
+    "ELEMS": ["uint8", "TAG[3]", "MARK[2]", "char"],  # arrays of padded structs
+    "VIA_ALIAS": ["SHORT_T", "BYTE_T"],               # 3 of 4 behind aliases
+    "PAIR2": ["int32", "int16"],                      # two trailing bytes
+    "STAMP1": ["double", "char"],                     # seven trailing bytes
+    "TAIL3": ["int64", "char[5]"],                    # three
+    "TAIL4": ["double", "float"],                     # four
+    "TAIL5": ["double", "char[3]"],                   # five
+    "TAIL6": ["double", "int16"],                     # six
+    "EXACT": ["int32", "char[4]"],                    # none
+}
+
+
+def one_short_programs() -> List[G.Program]:
+    """Closures for the gcc sample of the quick tier (auto_pad on): every definition of the table as a struct and as a message, the
+    one-byte cases also as user fields named like padding fields; and the same closure with the trailing byte declared by the user
+    (auto_pad off: accepted, nothing added)."""
+    out = []
+    for variant in ("auto", "padding-names", "user-padded"):
+        auto_pad = variant != "user-padded"
+        defs = [G.Def("alias", "SHORT_T", "root.yaml", value="int16"), G.Def("alias", "BYTE_T", "root.yaml", value="uint8")]
+        mid = 2000
+        for name, types in _ONE_SHORT.items():
+            fields = [_fs(f"padding_{i}_" if variant == "padding-names" and i != 1 else f"f{i}", t) for i, t in enumerate(types)]
+            sd = G.Def("struct", name, "root.yaml", fields=fields, flags=["padding-name"] if variant == "padding-names" else [])
+            defs.append(sd)
+            if not auto_pad:
+                probe = G.Program([G.FileSpec(path="root.yaml", defs=copy.deepcopy(defs))], "root.yaml",
+                                  {"auto_pad": True, "validate_alignment": True, "import_coredefs": False})
+                sd.fields = [_fs(n, t if ln is None else f"{t}[{ln}]") for n, t, ln in _user_padded(probe, name)]
+        for name in list(_ONE_SHORT):
+            mid += 1
+            defs.append(G.Def("message", "M_" + name, "root.yaml", id=mid, reuse=name) if mid % 2 else
+                        G.Def("message", "M_" + name, "root.yaml", id=mid, fields=copy.deepcopy(next(d for d in defs if d.name == name).fields)))
+        p = G.Program([G.FileSpec(path="root.yaml", defs=defs)], "root.yaml", {"auto_pad": auto_pad, "validate_alignment": True, "import_coredefs": False},
+                      "single", {"one-short-table", "one-short-table/" + variant} | ({"padding-name"} if variant == "padding-names" else set()))
+        out.append(p)
+    return out
+
+
+def _user_padded(p: G.Program, name: str) -> List[tuple]:
+    """The emitted field list the model expects for ``name`` with the padding fields renamed so that they cannot collide: what a user
+    writes who pads by hand."""
+    out = []
+    for k, (n, t, ln) in enumerate(G.emitted_fields(p, name)):
+        out.append((f"pad{k}_by_hand" if n.startswith("padding_") else n, t, ln))
     return out
 
 
